@@ -707,3 +707,93 @@ def bin_mutants(rng, b, cls, k, consts, no_vocab_file=False):
     if no_vocab_file:
         out.append(("bin-enumerate-without-vocab", b, cls, True))
     return out
+
+
+# ------------------------------------------------------------------------------------------------
+# two targeted generators (loader control paths the structured mutants of ordinary files rarely reach)
+
+def small_blank_case(rng):
+    """A SMALL model (few n-grams per order, so a probing table has only 1-2 spare buckets) of order 3 or 4, closed
+    under contexts and suffixes, from which lower-order lines are then deleted (counts repaired): the loader has to
+    hallucinate blanks, which compete for the spare buckets (ProbingSizeException path), or misses a context.
+    -> (bytes, meta)"""
+    N = rng.choice([3, 3, 3, 4])
+    words = ["a", "b", "c", "d", "e"][: rng.randrange(2, 6)]
+    seqs = []
+    for _ in range(rng.randrange(1, 4)):
+        L = rng.randrange(N, N + 3)
+        s = [rng.choice(words) for _ in range(L)]
+        if rng.random() < 0.4:
+            s = ["<s>"] + s
+        if rng.random() < 0.4:
+            s = s + ["</s>"]
+        seqs.append(s)
+    grams = {n: [] for n in range(1, N + 1)}
+    for s in seqs:
+        for n in range(1, N + 1):
+            for i in range(len(s) - n + 1):
+                g = tuple(s[i:i + n])
+                if g not in grams[n]:
+                    grams[n].append(g)
+    uni = [("<unk>",), ("<s>",), ("</s>",)] + [(w,) for w in words]
+    grams[1] = uni if rng.random() < 0.8 else [u for u in uni if u != ("<unk>",)]
+    deleted = 0
+    for n in range(2, N):
+        k = rng.choice([0, 1, 1, 2, 3])
+        for _ in range(min(k, max(0, len(grams[n]) - 1))):
+            del grams[n][rng.randrange(len(grams[n]))]
+            deleted += 1
+    if rng.random() < 0.3 and len(grams[N]) > 1:
+        rng.shuffle(grams[N])
+    lines = ["\\data\\"] + ["ngram %d=%d" % (n, len(grams[n])) for n in range(1, N + 1)] + [""]
+    for n in range(1, N + 1):
+        lines.append("\\%d-grams:" % n)
+        for g in grams[n]:
+            ln = "-%.2f\t%s" % (rng.uniform(0.1, 3.0), " ".join(g))
+            if n < N and rng.random() < 0.6:
+                ln += "\t-%.2f" % rng.uniform(0.05, 1.0)
+            lines.append(ln)
+        lines.append("")
+    lines.append("\\end\\")
+    data = ("\n".join(lines) + "\n").encode()
+    return data, {"order": N, "deleted": deleted, "sizes": [len(grams[n]) for n in range(1, N + 1)]}
+
+
+TRIE_MIN_SORT_BUFFER = 1048576     # lm/search_trie.cc: std::max<size_t>(config.building_memory, 1048576)
+
+
+def big_duplicate_cases(rng):
+    """A bigram model whose bigram section does not fit the 1 MB minimum sort buffer of the trie builder (12-byte records:
+    more than 87381 bigrams => at least two sorted batches are merged), and duplicate-line mutants of it with the two
+    copies far apart (different batches => ThrowCombine while temporaries exist), adjacent (same batch) and at random
+    positions.  -> list of (kind, bytes)"""
+    per_batch = TRIE_MIN_SORT_BUFFER // 12
+    V = rng.randrange(297, 312)
+    words = ["w%d" % i for i in range(V)]
+    pairs = [(a, b) for a in words for b in words]
+    want = per_batch + rng.randrange(200, 1500)
+    if rng.random() < 0.5:
+        rng.shuffle(pairs)
+    pairs = pairs[:want]
+    head = ["\\data\\", "ngram 1=%d" % (V + 3), "ngram 2=%d", "", "\\1-grams:", "-3.0\t<unk>\t-0.1", "-3.0\t<s>\t-0.1", "-3.0\t</s>\t-0.1"]
+    head += ["-3.0\t%s\t-0.1" % w for w in words] + ["", "\\2-grams:"]
+    body = ["-2.5\t%s %s" % p for p in pairs]
+    tail = ["", "\\end\\", ""]
+
+    def render(b):
+        return ("\n".join(head).replace("ngram 2=%d", "ngram 2=%d" % len(b)) + "\n" + "\n".join(b) + "\n" + "\n".join(tail)).encode()
+
+    out = [("big-valid", render(body))]
+    i = rng.randrange(0, 500)
+    b = list(body); b.append(body[i])                                   # first batch ... last batch
+    out.append(("big-dup-far", render(b)))
+    i = rng.randrange(0, per_batch - 2)
+    b = list(body); b.insert(i + 1, body[i].replace("-2.5", "-1.5"))    # adjacent: same batch
+    out.append(("big-dup-adjacent", render(b)))
+    i, j = rng.randrange(len(body)), rng.randrange(len(body))
+    b = list(body); b.insert(j, body[i])
+    out.append(("big-dup-random", render(b)))
+    i = rng.randrange(per_batch - 300, per_batch - 1)                      # straddling the batch boundary
+    b = list(body); b.insert(per_batch + rng.randrange(0, 3), body[i])
+    out.append(("big-dup-boundary", render(b)))
+    return out
